@@ -194,6 +194,8 @@ CLASS_TEMPLATES = [
 	'class {N}K:\n\tf: int\n\n\tdef __init__(self, p: int) -> None:\n\t\tself.f = p\n\n\t@property\n\tdef half(self) -> int:\n\t\treturn self.f >> 1 if self.f {1} 0 else 0\n\nclass {N}L({N}K):\n\tg: int\n\n\tdef __init__(self, p: int, q: int) -> None:\n\t\tsuper().__init__(p)\n\t\tself.g = q\n\n\tdef sum(self) -> int:\n\t\treturn self.half {0} self.g\n\ndef {n}({h}) -> int:\n\tl = {N}L(a, b)\n\treturn l.sum() + l.half\n',
 	# protected / private members declared ahead of a public one that is derived from them
 	'class {N}K:\n\t_r: int\n\t__s: int\n\tt: int\n\n\tdef __init__(self, p: int, q: int) -> None:\n\t\tself._r = q\n\t\tself.__s = p {0} 1\n\t\tself.t = self._r {0} self.__s\n\n\tdef m(self) -> int:\n\t\treturn self.t - self._r\n\ndef {n}({h}) -> int:\n\to = {N}K(a, b)\n\treturn o.m() + o.t\n',
+	# enums: members as values, comparisons, a helper returning an enum, folded member values
+	'from enum import Enum\n\nclass {N}E(Enum):\n\tA = 1\n\tB = 2\n\tC = 4\n\ndef {n}_h(c: bool, a: int) -> {N}E:\n\tif c:\n\t\treturn {N}E.A\n\treturn {N}E.B if a {1} 0 else {N}E.C\n\ndef {n}({h}) -> int:\n\te = {n}_h(c, a)\n\tt = 0\n\tif e == {N}E.A:\n\t\tt = 1\n\telif e != {N}E.B:\n\t\tt = 2\n\tu = {N}E.C\n\treturn (t {0} {N}E.B.value) + (3 if e == u else d)\n',
 	# constructor that updates a field after storing it, then derives a second field from it
 	'class {N}K:\n\tf: int\n\tg: int\n\n\tdef __init__(self, p: int, q: int) -> None:\n\t\tself.f = p\n\t\tself.f += 1\n\t\tself.g = self.f {0} q\n\ndef {n}({h}) -> int:\n\to = {N}K(a, b)\n\treturn o.g\n',
 	# a field declared after the field that is derived from it
